@@ -20,12 +20,15 @@ META = {
                   'parameter exist and are exported, not readonly, not constant, payload accepted against the cached value, '
                   'dynamic limits and check hooks satisfied), change_calls_le_one, rejected_is_inert (otherwise: no call, node '
                   'unchanged, no update, error report of the class named by the decision list), no_call_cases, fitting_* (the '
-                  'class clause by clause), do_calls_iff, do_rejected_is_inert, request_ok + histories (every request of any '
+                  'class clause by clause, fitting_invertedPair for a LimitsType pair), do_calls_iff, do_rejected_is_inert, request_ok + histories (every request of any '
                   'history, limits moved by earlier requests included, satisfies the monitored specification; WF is kept). '
+                  'calls_within_current_limits (lock discipline of the wrappers: in every interleaving of any number of threads a driver call is '
+                  'made with a value inside the limit in force at that moment). '
                   'The model is tied to dispatcher.py / modulebase.py / params.py by a correspondence run on the real '
                   'dispatcher with recording drivers, and the Lean monitors judge every implementation exchange.',
-    'level_note': 'Trusted: Lean kernel + axioms; the datatype layer (import_value/validate/export_value, comparisons of '
-                  'values) is an oracle here and the subject of C01-C03; drivers, command functions and check_ hooks are '
+    'level_note': 'Trusted: Lean kernel + axioms; for the ten SECoP datatype kinds the value accepted from the wire is recomputed '
+                  'by the C01 datatype model (acceptWire) in the Lean judge and the implementation must agree; export_value, '
+                  'comparisons, LimitsType/StatusType and driver-returned values remain an oracle (C01-C03); drivers, command functions and check_ hooks are '
                   'oracles by definition; time stamps / omit_unchanged_within are not modelled (C05): the node runs with '
                   'omit_unchanged_within = 0.',
     'trusted': [
@@ -34,7 +37,8 @@ META = {
         'a stored read error is identified by (type, args) as SECoPError.__eq__ does',
     ],
     'modelled_not_verified': [
-        'threading (accessLock / updateLock / dispatcher lock): one request at a time',
+        'threading: the sequential model serves one request at a time; the accessLock discipline is a separate small-step '
+        'system (AccessLock.lean) tied to the real wrappers by replaying their events under the deterministic scheduler',
         'time stamps and the omit_unchanged_within window (C05)',
         'Python MRO resolution producing the check_<param> chain (taken from the real class as data)',
     ],
@@ -366,7 +370,9 @@ def gen_modspec(rng, name, big):
             cfg[p['attr']] = {'readonly': not p['readonly']}
         elif r < 0.26 and p['export'] is False:
             cfg[p['attr']] = {'export': True}
-    return {'name': name, 'base': base, 'exported': rng.random() < 0.8, 'layers': layers, 'cfg': cfg}
+    # feature mixins: 'FeatA' = direct Feature subclass (reported), 'FeatSub' = subclass of one (itself not a feature)
+    feats = rng.choice([[], [], [], ['FeatA'], ['FeatB', 'FeatA'], ['FeatSub'], ['FeatSub', 'FeatB']])
+    return {'name': name, 'base': base, 'exported': rng.random() < 0.8, 'layers': layers, 'cfg': cfg, 'features': feats}
 
 
 def gen_nodespec(rng, big):
@@ -536,6 +542,19 @@ def mk_layer_class(box, clsname, bases, layer, known):
     return type(clsname, bases, attrs)
 
 
+_features = {}
+
+
+def feature_class(name):
+    """empty feature mixins (no accessibles of their own)"""
+    from frappy.modulebase import Feature
+    if not _features:
+        _features['FeatA'] = type('FeatA', (Feature,), {'__module__': 'verifgen', '__doc__': 'feature A'})
+        _features['FeatB'] = type('FeatB', (Feature,), {'__module__': 'verifgen', '__doc__': 'feature B'})
+        _features['FeatSub'] = type('FeatSub', (_features['FeatA'],), {'__module__': 'verifgen', '__doc__': 'refined A'})
+    return _features[name]
+
+
 _MISSING = object()
 _clscount = [0]
 
@@ -551,7 +570,8 @@ def build_node(nodespec):
         _clscount[0] += 1
         base = getattr(fm, ms['base'])
         known = {}
-        c0 = mk_layer_class(box, 'GenA%d' % _clscount[0], (base,), ms['layers'][0], known)
+        mixins = tuple(feature_class(f) for f in ms.get('features', []))
+        c0 = mk_layer_class(box, 'GenA%d' % _clscount[0], mixins + (base,), ms['layers'][0], known)
         c1 = mk_layer_class(box, 'GenB%d' % _clscount[0], (c0,), ms['layers'][1], known)
         classes[ms['name']] = c1
         mcfg = {'cls': c1, 'description': 'generated module ' + ms['name']}
@@ -672,8 +692,10 @@ def node_json(node, nodespec=None, classes=None):
                     'datainfo': canonj(aobj.datatype.export_datatype()),
                     'props': props_json(aobj, ('datainfo',)),
                 })
+        from frappy.modulebase import Feature
         mods.append({'name': mname, 'exported': bool(modobj.export), 'accs': accs,
-                     'props': props_json(modobj, ())})
+                     'props': props_json(modobj, ()),
+                     'mro': [[b.__name__, Feature in b.__bases__] for b in mycls.__mro__]})
     return {'modules': mods}
 
 
@@ -755,6 +777,15 @@ def gen_steps(rng, nodespec, nsteps):
     steps = []
     for i in range(nsteps):
         r = rng.random()
+        if params and rng.random() < 0.06:
+            # a fault inside the module: it assigns a parameter itself; the next request reads that parameter
+            st = gen_assign(rng, params, rng.randrange(1 << 30))
+            steps.append(st)
+            m, a = st['spec'].split(':', 1)
+            exp = next(e[4] for e in params if e[0] == m and e[1] == a)
+            steps.append({'kind': 'read', 'spec': '%s:%s' % (m, guess_wire(rng, a, exp, 'param')), 'data': None,
+                          'script': 'value_valid', 'seed': rng.randrange(1 << 30)})
+            continue
         kind = 'change' if r < 0.58 else 'do' if r < 0.78 else 'read'
         if kind == 'do' and not cmds and rng.random() < 0.85:
             kind = 'change'
@@ -807,7 +838,37 @@ def gen_steps(rng, nodespec, nsteps):
 # running a case on the real code, collecting observations and oracle tables
 # ----------------------------------------------------------------------------------------
 class Oracle:
+    step = 0
+
+    def tree_of(self, m, attr, dt):
+        """datatype tree for the C01 model, None when the datatype is outside its fragment (LimitsType, StatusType, custom)"""
+        from vlib import dtcodec
+        key = (m, attr)
+        if key not in self.trees:
+            try:
+                self.trees[key] = dtcodec.dt_to_tree(dt)
+            except Exception:
+                self.trees[key] = None
+        return self.trees[key]
+
+    def accept_row(self, m, attr, dt, payload, cur, r):
+        """hand the row to the Lean side in the C01 encoding, so that `acceptWire` is recomputed there"""
+        from vlib import dtcodec
+        if self.tree_of(m, attr, dt) is None:
+            self.count_outside += 1
+            return
+        if not (dtcodec.is_json_value(payload) and dtcodec.encodable(payload) and dtcodec.encodable(cur)):
+            return
+        try:
+            res = {'ok': dtcodec.py_to_json(r[1])} if r[0] == 'ok' else {'err': r[1]}
+            self.ck.append([self.step, m, attr, dtcodec.py_to_json(payload), dtcodec.py_to_json(cur), res])
+        except Exception:
+            pass
+
     def __init__(self):
+        self.trees = {}
+        self.ck = []
+        self.count_outside = 0
         self.t = {k: {} for k in ('accept', 'reval', 'convert', 'export', 'cmdaccept', 'cmdconvert', 'cmdexport',
                                   'le', 'lt', 'split', 'chk')}
 
@@ -853,6 +914,7 @@ def param_oracle(orc, box, modobj, mycls, attr, pobj, payload, kind, raws):
     if kind == 'change':
         r = oracle_call(lambda: datainfo_validate(dt)(dt.import_value(payload), previous=cur))
         orc.put('accept', [m, attr, canonj(payload), canon(cur)], orc.res(r))
+        orc.accept_row(m, attr, dt, payload, cur, r)
         if r[0] == 'ok':
             v = r[1]
             exp_safe(v)
@@ -981,8 +1043,12 @@ def run_case(nodespec, steps):
         box.returned = []
         box.script = {'kind': st['script'], 'n': n}
         box.rng = random.Random(st['seed'])
+        orc.step = n
         before = cache_rows(node)
         kind, spec, data = st['kind'], st['spec'], st['data']
+        if kind == 'assign':
+            out_steps.append(run_assign(node, orc, conn, st, before))
+            continue
         # python objects needed for the oracle are those of BEFORE the request
         modname, accname = split_spec(spec)
         pre = []
@@ -1034,7 +1100,49 @@ def run_case(nodespec, steps):
         wire_data = canonj(data) if kind == 'change' else (None if data is None else canonj(data)) if kind == 'do' else bool(data)
         out_steps.append({'req': [kind, spec if spec is not None else None, wire_data], 'drv': drv, 'obs': obs,
                           'pyclass': reply[2][1] if reply and reply[0].startswith('error_') else None})
-    return {'node': nj, 'steps': out_steps, 'oracle': orc.json(), 'errors': []}
+    return {'node': nj, 'steps': out_steps, 'oracle': orc.json(), 'errors': [],
+            'dtrees': [[m, a, t] for (m, a), t in orc.trees.items() if t is not None], 'acceptck': orc.ck,
+            'accept_outside_model': orc.count_outside}
+
+
+BAD_RAW = ['a much too long string, longer than any limit', float('nan'), float('inf'), -1e300, 10 ** 40, None, [1, 2, 3, 4, 5, 6, 7, 8, 9],
+           {'zz': 1}, b'\x00' * 40, 'ä', -7, 2.5]
+
+
+def run_assign(node, orc, conn, st, before):
+    """module code assigns a parameter (`self.<attr> = raw`): not a request; the model gets the datatype's verdict on raw"""
+    m, attr = st['spec'].split(':', 1)
+    raw = st['data']
+    modobj = node.secnode.modules.get(m)
+    pobj = modobj.parameters.get(attr) if modobj is not None else None
+    if pobj is not None:
+        dt = pobj.datatype
+        r = oracle_call(dt, raw)
+        orc.put('convert', [m, attr, None if raw is None else canon(raw)], orc.res(r))
+        if r[0] == 'ok':
+            e = oracle_call(dt.export_value, r[1])
+            orc.put('export', [m, attr, canon(r[1])], canonj(e[1]) if e[0] == 'ok' else 'EXPORT-ERROR')
+        try:
+            setattr(modobj, attr, raw)
+        except Exception:
+            pass
+    obs = {'reply': ['done', None], 'calls': [], 'emits': [msg_obs(x) for x in conn.msgs], 'before': before,
+           'after': cache_rows(node)}
+    conn.msgs.clear()
+    return {'req': ['assign', m, attr, None if raw is None else canon(raw)], 'drv': 'none', 'obs': obs, 'pyclass': None}
+
+
+def gen_assign(rng, params, seed):
+    """an assignment inside the module: mostly values the datatype refuses, sometimes a valid one"""
+    m, a, _, dtspec, _ = rng.choice(params)
+    if dtspec is not None and rng.random() < 0.35:
+        try:
+            raw = mk_dtype(dtspec).import_value(gen_valid(rng, dtspec))
+        except Exception:
+            raw = rng.choice(BAD_RAW)
+    else:
+        raw = rng.choice(BAD_RAW)
+    return {'kind': 'assign', 'spec': '%s:%s' % (m, a), 'data': raw, 'script': 'none', 'seed': seed}
 
 
 def _script_exc(box, st, n):
@@ -1044,6 +1152,179 @@ def _script_exc(box, st, n):
     if st['script'] == 'raise_secop':
         return [HardwareError('hw %d' % n), CommunicationFailedError('comm')][rng.randrange(2)]
     return [ZeroDivisionError('division'), KeyError('k')][rng.randrange(2)]
+
+
+# ----------------------------------------------------------------------------------------
+# concurrent part: a change request racing a thread that moves the dynamic limit
+# ----------------------------------------------------------------------------------------
+class RecLock:
+    """the module's accessLock with its outermost acquire / release recorded per thread"""
+
+    def __init__(self, inner, events, tid):
+        self.inner, self.events, self.tid = inner, events, tid
+
+    def __enter__(self):
+        self.inner.acquire()
+        if getattr(self.inner, 'depth', 1) == 1:
+            self.events.append(['acquire', self.tid()])
+        return True
+
+    def __exit__(self, *exc):
+        if getattr(self.inner, 'depth', 1) == 1:
+            self.events.append(['release', self.tid()])
+        self.inner.release()
+        return False
+
+    acquire = __enter__
+
+    def release(self):
+        self.__exit__()
+
+
+def conc_run(case, policy):
+    """one schedule of: thread 1 = `change m:target v` (twice), thread 2 = moves target_max (driver-side read of a new
+    hardware limit / write_target_max / a change request).  Real SecNode + Dispatcher + wrappers under vlib.sched."""
+    import frappy.modulebase
+    import frappy.protocol.dispatcher
+    from frappy.modules import Module
+    from frappy.params import Parameter, Limit
+    from frappy.datatypes import FloatRange
+    from vlib.node import Node
+    from vlib.sched import Scheduler
+    s = Scheduler(policy=policy, max_steps=4000)
+    events, calls, replies = [], [], []
+
+    def tid():
+        me = s.me()
+        return {'h': 1, 'u': 2}.get(me.name[:1], 0) if me is not None else 0
+
+    with s.patched(frappy.modulebase, threading=s.threading, time=s.time, mkthread=s.mkthread), \
+            s.patched(frappy.protocol.dispatcher, threading=s.threading, currenttime=s.time):
+        class CM(Module):
+            enablePoll = False
+            target = Parameter('setpoint', FloatRange(0, 1000), readonly=False, default=0)
+            target_max = Limit()
+            hw_max = float(case['max0'])
+
+            def check_target(self, value):          # same as the automatic check, recorded
+                events.append(['check', tid(), int(value)])
+                self.checkLimits(value, 'target')
+
+            def read_target_max(self):
+                return self.hw_max
+
+            def write_target_max(self, value):
+                return value
+
+            def write_target(self, value):
+                events.append(['call', tid(), int(value)])
+                calls.append((value, self.target_max))
+                return value
+        node = Node({'m': {'cls': CM, 'description': 'm', 'target_max': {'value': float(case['max0'])}}},
+                    omit_unchanged_within=0)
+        mo = node.modules['m']
+        mo.accessLock = RecLock(mo.accessLock, events, tid)
+        mo.addCallback('target_max', lambda value, *err: events.append(['move', tid(), int(value)]) if not err else None)
+        c1, c2 = node.connect(), node.connect()
+
+        def requester():
+            for v in case['values']:
+                replies.append(reply_obs(node.request(c1, 'change', 'm:target', v)))
+            s.yield_(('end',))
+
+        def mover():
+            for how, new in case['moves']:
+                if how == 'read':
+                    mo.hw_max = float(new)
+                    try:
+                        mo.read_target_max()
+                    except Exception:
+                        pass
+                elif how == 'write':
+                    try:
+                        mo.write_target_max(float(new))
+                    except Exception:
+                        pass
+                else:
+                    node.request(c2, 'change', 'm:target_max', new)
+            s.yield_(('end',))
+        s.spawn('h1', requester)
+        s.spawn('u2', mover)
+        result = s.run(wall_timeout=20)
+        nj = node_json(node, None, None)
+    import logging
+    registry = logging.Logger.manager.loggerDict
+    for k in [k for k in registry if k == node.root.name or k.startswith(node.root.name + '.')]:
+        del registry[k]
+    return s, {'events': events, 'calls': calls, 'replies': replies, 'result': result, 'node': nj}
+
+
+def conc_requests(case, obs):
+    """driver requests for one run: the event sequence on the lock-discipline system + every driver call against the
+    limits of its moment"""
+    reqs = [{'p': PID, 'k': 'lockrun', 'max': int(case['max0']), 'acts': obs['events']}]
+    for v, lim in obs['calls']:
+        nj = json.loads(json.dumps(obs['node']))
+        for a in nj['modules'][0]['accs']:
+            if a['attr'] == 'target_max':
+                a['value'] = canon(lim)
+        orc = Oracle()
+        cmp_tables(orc, [v, lim])
+        reqs.append({'p': PID, 'k': 'judge_call', 'node': nj, 'oracle': orc.json(), 'm': 'm', 'attr': 'target', 'v': canon(v)})
+    return reqs
+
+
+def gen_conc_case(rng):
+    max0 = rng.choice([100, 80, 500])
+    values = [rng.choice([max0 - 10, max0, max0 // 2, max0 + 5]) for _ in range(rng.choice([1, 2]))]
+    moves = [[rng.choice(['read', 'read', 'write', 'change']), rng.choice([max0 // 4, max0 - 20, max0 + 100, 1])]
+             for _ in range(rng.choice([1, 1, 2]))]
+    return {'max0': max0, 'values': values, 'moves': moves}
+
+
+def conc_judge(ctx, case, obs):
+    """-> None or (sig, what)"""
+    ans = ctx.driver.batch(conc_requests(case, obs))
+    for a in ans:
+        if 'driver_error' in a:
+            raise RuntimeError('driver error: %s' % a['driver_error'])
+    for (v, lim), a in zip(obs['calls'], ans[1:]):
+        if not a['ok']:
+            return ('C04:concurrent:call-outside-current-limits',
+                    f'write_target({v}) was called while target_max was {lim} (moved by another thread between check and call); '
+                    f'replies {obs["replies"]}')
+    if not ans[0]['ok']:
+        return ('C04:concurrent:lock-discipline',
+                f'the wrappers\' events are not a run of the lock-discipline system (check / call / limit move outside one '
+                f'accessLock section): {obs["events"]}')
+    return None
+
+
+def run_concurrent(ctx, res, big):
+    from vlib.sched import explore, ReplayThenDefault
+    ncases = ctx.budget(14, 120)
+    seen_sigs = set()
+    for _ in range(ncases):
+        case = gen_conc_case(ctx.rng)
+        nruns = 0
+        for prefix, sched, obs in explore(lambda pol: conc_run(case, pol), max_preemptions=2, max_runs=60 if big else 30):
+            nruns += 1
+            if obs['result']['aborted'] not in (None,):
+                raise RuntimeError(f'scheduler aborted ({obs["result"]["aborted"]}) on {case}')
+            res.evaluations += 1
+            res.traces += 1
+            res.count('concurrent.schedules')
+            res.count('concurrent.driver-calls', len(obs['calls']))
+            if any(e[0] == 'move' for e in obs['events']) and obs['calls']:
+                res.nontriv(['conc', case, list(prefix)])
+            bad = conc_judge(ctx, case, obs)
+            if bad and bad[0] not in seen_sigs:
+                # a broken discipline is reported once; the search goes on for a schedule with a call outside the limits
+                seen_sigs.add(bad[0])
+                res.violations.append({'sig': bad[0], 'what': bad[1],
+                                       'case': {'concurrent': case, 'schedule': list(prefix)}})
+            if bad and bad[0].endswith('call-outside-current-limits'):
+                break
 
 
 # ----------------------------------------------------------------------------------------
@@ -1057,7 +1338,8 @@ def gen_case(seed, big):
 def model_and_judge(ctx, rec):
     base = {'p': PID, 'node': rec['node'], 'oracle': rec['oracle']}
     return [dict(base, k='history', steps=[{'req': s['req'], 'drv': s['drv']} for s in rec['steps']]),
-            dict(base, k='judge', steps=[{'req': s['req'], 'obs': s['obs']} for s in rec['steps']])]
+            dict(base, k='judge', steps=[{'req': s['req'], 'obs': s['obs']} for s in rec['steps']],
+                 dtrees=rec.get('dtrees', []), acceptck=rec.get('acceptck', []))]
 
 
 def compare(model_out, rec):
@@ -1078,6 +1360,9 @@ def _diff_rows(a, b):
 
 def classify(st):
     req, obs = st['req'], st['obs']
+    if req[0] == 'assign':
+        return 'assign.' + ('stored' if obs['before'] != obs['after'] and any(e[0] == 'update' for e in obs['emits'])
+                            else 'refused' if any(e[0] == 'error_update' for e in obs['emits']) else 'silent')
     return '%s.%s' % (req[0], obs['reply'][0] if obs['reply'][0] != 'error' else obs['reply'][1])
 
 
@@ -1087,6 +1372,8 @@ def sig_of(rec, idx, why):
     kind = st['req'][0]
     called = 'call' if obs['calls'] else 'nocall'
     rep = obs['reply'][0] if obs['reply'][0] != 'error' else obs['reply'][1]
+    if why.startswith('accept-oracle'):
+        return 'C04:accept-differs-from-datatype-model'
     want = why.split(' ')[0] + (':' + why.split(' ')[1] if why.startswith('refuse') else '')
     return 'C04:%s:%s:%s:want-%s' % (kind, called, rep, want)
 
@@ -1148,6 +1435,8 @@ def run(ctx):
         res.count('oracle.hook-results.pass', sum(1 for r in rec['oracle']['chk'] if r[-1] == 'pass'))
         res.count('oracle.hook-results.stop', sum(1 for r in rec['oracle']['chk'] if r[-1] == 'stop'))
         res.count('oracle.hook-results.raise', sum(1 for r in rec['oracle']['chk'] if isinstance(r[-1], list)))
+        res.count('accept-rows.recomputed-by-datatype-model', len(rec.get('acceptck', [])))
+        res.count('accept-rows.outside-model(LimitsType...)', rec.get('accept_outside_model', 0))
         res.count('oracle.accept.ok', sum(1 for r in rec['oracle']['accept'] if r[-1][0] == 'ok'))
         res.count('oracle.accept.err', sum(1 for r in rec['oracle']['accept'] if r[-1][0] != 'ok'))
         if any(st['req'][0] == 'change' and any(c[0] == 'write' for c in st['obs']['calls']) for st in rec['steps']) \
@@ -1186,6 +1475,7 @@ def run(ctx):
                         f'the specification says: {why}',
                 'case': {'seed': case['seed'], 'big': case['big'], 'keep': keep},
                 'detail': {'step': idx, 'obs': {k: st['obs'][k] for k in ('reply', 'calls', 'emits')}}})
+    run_concurrent(ctx, res, big)
     res.count('cases', len(recs))
     if skipped:
         res.notes.append(f'{skipped} generated nodes were rejected by frappy itself at creation and skipped')
@@ -1194,6 +1484,16 @@ def run(ctx):
 
 def replay(ctx, rp):
     c = rp['case']
+    if 'concurrent' in c:
+        from vlib.sched import ReplayThenDefault
+        s, obs = conc_run(c['concurrent'], ReplayThenDefault(c['schedule']))
+        print('case    :', c['concurrent'])
+        print('events  :', obs['events'])
+        print('calls (value, target_max at that moment):', obs['calls'])
+        print('replies :', obs['replies'])
+        bad = conc_judge(ctx, c['concurrent'], obs)
+        print('judge   :', bad)
+        return 1 if bad else 0
     case = gen_case(c['seed'], c['big'])
     steps = case['steps'] if 'keep' not in c else [case['steps'][i] for i in c['keep']]
     if 'step' in c and 'keep' not in c:
